@@ -10,10 +10,13 @@
 
 mod adapter;
 mod engine;
+mod faults;
+mod forge;
 mod guard;
 mod history;
 mod model;
 mod ops;
+mod overflow;
 mod payload;
 mod probe;
 mod report;
@@ -98,6 +101,16 @@ fn main() -> std::process::ExitCode {
             }
         };
         out.rep
+    } else if args.workload == "forge" {
+        match world.as_str() {
+            "main" => forge::run_forge::<worlds::wmain::WMain>(seed, shard, ops, small),
+            _ => forge::run_forge::<worlds::wsmall::EcsWorld>(seed, shard, ops, small),
+        }
+    } else if args.workload == "overflow" {
+        match world.as_str() {
+            "main" => overflow::run_overflow::<worlds::wmain::WMain>(seed, shard, ops, small),
+            _ => overflow::run_overflow::<worlds::wsmall::EcsWorld>(seed, shard, ops, small),
+        }
     } else {
         eprintln!("unknown workload {}", args.workload);
         std::process::exit(4);
